@@ -7,6 +7,7 @@
    instantiates them with the values computed by the real functions. *)
 From Coq Require Import List Ascii String ZArith NArith Bool.
 From Anthem Require Import Base.ISet Base.Fresh Syntax.Fol Syntax.Asp Model.Break Model.Problem Model.Outline Model.Strong.
+From Anthem Require Model.Completion.
 Import ListNotations.
 Open Scope string_scope.
 Open Scope list_scope.
@@ -247,6 +248,16 @@ Definition spec_assumptions_no_output (outputs : list pred) (fs : list aformula_
 Definition spec_roles_supported (fs : list aformula_annot) : bool :=
   forallb (fun a => match an_role a with RAssumption | RSpec => true | _ => false end) fs.
 
+(* ---------- the empty completed definitions of missing output predicates (/repo <COMMIT-F17>) ----------
+   `forall V1..Vn (p(V1..Vn) <-> #false)`: atomic_formula_from + the completed definition with no
+   partial definition, i.e. exactly what completion.rs builds for a predicate that occurs in rule
+   bodies only; for every output predicate (user-guide order) that is not a predicate of the
+   completed theory (IndexSet::difference) *)
+Definition empty_definition (p : pred) : formula :=
+  Completion.complete_definition (Completion.atomic_formula_from p, []).
+Definition missing_output_definitions (outputs : list pred) (th : theory) : theory :=
+  map empty_definition (iset_diff pred_dec outputs (theory_predicates th)).
+
 Section Components.
 Variable is_tight : program -> bool.
 Variable has_private_recursion : program -> list pred -> bool.
@@ -348,11 +359,15 @@ Definition c_spec_assumptions_no_output (t : ext_task) : bool :=
 Definition c_placeholders_single_sorted (t : ext_task) : bool :=
   negb (placeholder_clash (ug_placeholders (et_user_guide t)) []).
 
-(* theory_translate; None = panic (expect) *)
+(* theory_translate; None = panic (expect).  Since /repo <COMMIT-F17> (finding F17) every output
+   predicate of the user guide that does not occur in the completed theory receives the empty
+   completed definition, appended after the completion and before the simplification. *)
 Definition theory_translate (t : ext_task) (m : placeholders) (p : program) : option theory :=
   match completion (rp_theory m (tau_star p)) (ug_input_predicates (et_user_guide t)) with
   | None => None
-  | Some th => Some (if et_simplify t then map simp_classic th else th)
+  | Some th0 =>
+      let th := th0 ++ missing_output_definitions (ug_output_predicates (et_user_guide t)) th0 in
+      Some (if et_simplify t then map simp_classic th else th)
   end.
 
 (* the user-guide formulas: assumptions are kept (placeholders replaced), other roles give a
@@ -429,4 +444,4 @@ End Components.
    head_predicate control_translate rename_predicates ug_input_predicates ug_output_predicates
    ug_public_predicates ug_placeholders spec_predicates c_tight c_no_private_recursion c_no_input_in_head
    c_io_disjoint c_ug_assumptions_inputs_only c_spec_assumptions_no_output c_placeholders_single_sorted
-   task_spec_private task_prog_private iset_inter *)
+   task_spec_private task_prog_private iset_inter empty_definition missing_output_definitions *)
